@@ -85,6 +85,9 @@ type Spec[C any] struct {
 	Nondet bool
 	// Rejudge re-evaluates a recorded history deterministically (Nondet only).
 	Rejudge     func(history json.RawMessage) *Failure
+	// ReplayJudgeOnly: a replay file that carries a history is only re-judged, its case is not
+	// executed again (the case was generated under steering that a replay does not re-create).
+	ReplayJudgeOnly bool
 	Rule        string
 	Assumptions []string
 	// Fixed cases that are always executed first (regressions, corner cases).
@@ -325,6 +328,10 @@ func runReplay[C any](t *testing.T, sp Spec[C], path string) {
 		if f := sp.Rejudge(rf.History); f != nil {
 			report(f)
 		}
+		if sp.ReplayJudgeOnly {
+			fmt.Printf("VERIF-REPLAY-OK property=%s\n", sp.ID)
+			return
+		}
 	}
 	var c C
 	if err := json.Unmarshal(rf.Case, &c); err != nil {
@@ -333,6 +340,9 @@ func runReplay[C any](t *testing.T, sp Spec[C], path string) {
 	n := 1
 	if sp.Nondet {
 		n = 20
+	}
+	if r, err := strconv.Atoi(os.Getenv("VERIF_REPLAY_REPEAT")); err == nil && r > 0 {
+		n = r // development aid: hunt for a schedule-dependent failure of one case
 	}
 	for i := 0; i < n; i++ {
 		if f := sp.Exec(c, &Ctx{Replay: true}); f != nil {
